@@ -10,7 +10,7 @@ claim("C03", "model_checking",
       "Bounded: the real matchCommand (with matchPattern, compareStr*, strnpbrk under it) equals a reference matcher written from the statement, for shipped patterns and every header up to 8 bytes over the pattern's letters in both cases plus : ? * digits _ and a foreign letter, including the suffix numbers and defaults. Unbounded language equivalence of the hand-written matcher is out of reach of contracts (stated in DESIGN).",
       "DESIGN.md C03", "CBMC bounded equivalence against a reference matcher (unwinding assertions on)")
 claim("C04", "proof",
-      "Token class -> base/signedness selection of every converter is a contract (P). The unit table and the special mnemonics are finite: every row x every letter case x 0..2 blanks is proved against a golden table (P/U). That a literal is converted as a whole is bounded (literals <= 5 bytes); correct rounding itself is libc's assumed contract.",
+      "Token class -> base/signedness selection of every converter is a contract (P). The unit table and the special mnemonics are finite: every row x every letter case x 0..2 blanks is proved against a golden table (P/U). The six text->number helpers are contracts too (conv.*, P): exactly one call of the libc conversion of their own type with the caller's base, value and used length passed on unchanged - so a float is never a rounded double; correct rounding itself is libc's assumed contract. That a literal is converted as a whole is bounded (literals <= 5 bytes).",
       "DESIGN.md C04", "CBMC contracts + full unwinding over the finite tables; assumed libc conversions")
 claim("C05", "proof",
       "The parameter cursor (five cases), every typed reader's decision table, processCommand's -200/-108 accounting, the recognisers' result==bytes-consumed (items delivered whole) and unit-level rejection (a unit accepted with a valid header ends right behind its data list or is marked malformed) are postconditions discharged by CBMC for symbolic buffers up to 10^6 bytes; SCPI_Input's return value rule is part of its contract. Two input shapes are listed known findings with bounded confirmation jobs.",
@@ -25,7 +25,7 @@ claim("C08", "model_checking",
       "Bounded whole-library self-composition: the same stream fed in one call and split at every point gives the same handler invocations, parameters, output, errors and remainder (messages of 1..3 units from a menu; every split point in the thorough tier, the split at the message boundary for every menu pair in the quick tier). SCPI_Input's buffer management (append, overrun guard, NUL, remainder moved to the front, termination) and unit detection's progress/termination-kind contract are P. A newline inside a quoted string is a listed known finding.",
       "DESIGN.md C08", "CBMC bounded self-composition of the real input path")
 claim("C09", "proof",
-      "Per-unit isolation is a contract obligation: the handler contract REQUIRES cmd_error, input_count, output_count, arbitrary_remaining fresh and the cursor at the start of the unit's data, and CBMC asserts that at the call in processCommand for arbitrary entry values. Message-to-message isolation: bounded whole-library job (B after A == B on a fresh context).",
+      "Per-unit isolation is a contract obligation: the handler contract REQUIRES cmd_error, input_count, output_count, arbitrary_remaining fresh and the cursor at the start of the unit's data, and CBMC asserts that at the call in processCommand for arbitrary entry values. Message-to-message and unit-to-unit isolation of the parameter cursor: bounded whole-library jobs (B after A == B on a fresh context; a unit with an optional parameter after a unit that left parameters unread).",
       "DESIGN.md C09", "handler-entry precondition asserted at the call site (DFCC) + bounded self-composition")
 claim("C10", "proof",
       "Ring-buffer representation invariant and FIFO view for every fifo.c function with symbolic capacity up to 32767 (witness slot over the whole view); SCPI_ErrorPushEx/Pop/Clear/Count against those contracts: overflow marking, pop order, empty pop, count; every text released exactly once in Clear (loop contract). Ownership under CBMC's malloc/free model (failing malloc, double free, use after free, leak checks on) is decided for bounded histories of push/pop/clear on the real queue (hist.malloc.*, labelled bounded).",
@@ -40,7 +40,7 @@ claim("C13", "proof",
       "Shape layer: all 15 token recognisers, their 13 helpers and the three program-data/unit recognisers under contracts with loop contracts, for buffers up to 10^6 bytes over all byte values: cursor in bounds, rollback on rejection, type/extent/length agree with what was consumed, result == displacement, first/last/next-byte facts, termination. Character-class content of whole tokens is enforced in the thorough tier only. Language layer (bounded): each recogniser equals a reference recogniser written from IEEE 488.2 section 7 for every string up to 8 (thorough 12) bytes at two offsets, and unit detection equals a reference for every input up to 5 (thorough 7) bytes.",
       "DESIGN.md C13", "CBMC function + loop contracts on the real recognisers")
 claim("C14", "proof",
-      "UInt32/UInt64ToStrBaseSign and wrappers, full domain (value, base, sign flag, len 0..72 symbolic): length, truncation, NUL, nothing beyond the buffer, sign, digit range, no leading zero; value exactness for bases 2/8/16 by decoding. Loops are bounded by the operand width and fully unwound (complete). Base-10 value exactness: bounded (|v| < 10^6), stated as such.",
+      "UInt32/UInt64ToStrBaseSign and wrappers, full domain (value, base, sign flag, len 0..72 symbolic): length, truncation, NUL, nothing beyond the buffer, sign, digit range, no leading zero; value exactness for bases 2/8/16 by decoding. Loops are bounded by the operand width and fully unwound (complete). Base-10 value exactness: bounded (|v| < 10^6), stated as such. 64-bit jobs are in the thorough tier (24 min each); the quick tier has the 64-bit sign rule for |v| < 2^34 (bounded).",
       "DESIGN.md C14", "CBMC full-domain harnesses, loops unwound to the operand width with unwinding assertions")
 claim("C15", "model_checking",
       "Frames: integer formatters (P/U, full domain, canaries) and SCPI_ParamCopyText (P, loop contract) never write beyond the caller's buffer. SCPI_NumberToStr under contract (frame = the caller's len bytes, result < len, NUL; strncpy/strncat/strlen are CBMC's models, buffer 0..12 quick / 0..28 thorough). Float/double-to-string and the built-in formatter's non-finite path: bounded (buffer 0..24, canary directly behind the buffer in the same object, snprintf modelled).",
@@ -52,10 +52,10 @@ claim("C18", "model_checking",
       "Bounded stand-in: the real SCPI_ResultError with the limit lowered from 255 to 20 (redefined in the harness, repository untouched), every text <= 14 bytes over {a, \"}, three codes: quoting, limit, late cut, prefix property.",
       "DESIGN.md C18", "CBMC bounded harness on the real function")
 claim("C19", "model_checking",
-      "Bounded: the real list decoders over the real lexer equal a reference list parser written from the statement for every expression body up to 5 (thorough 7) bytes over the statement's alphabet, every index, every capacity; the lexer pieces they use are under contract (P).",
+      "Bounded: the real list decoders over the real lexer equal a reference list parser written from the statement numeric lists: every expression body up to 5 (thorough 7) bytes over the statement's alphabet, every index; channel lists: body length and index fixed per job (0..3 bytes quick, 4..5 thorough), bytes and capacity 0..3 symbolic; the lexer pieces they use are under contract (P).",
       "DESIGN.md C19", "CBMC bounded equivalence against a reference list parser")
 claim("C20", "proof",
-      "Static-heap build (-DUSE_MEMORY_ALLOCATION_FREE=0): scpiheap_strndup stores the text intact or refuses and changes nothing; nothing outside the allocated bytes changes; reads of the source stay inside its n bytes; heap sizes up to 100000 symbolic. scpiheap_free / get_parts have no contract of their own: histories of push/pop/clear with an 8-byte heap between canaries (all sequences up to length 3 plus longer drain/refill sequences) decide full reuse, integrity of queued texts and containment (hist.heap.*, labelled bounded).",
+      "Static-heap build (-DUSE_MEMORY_ALLOCATION_FREE=0): scpiheap_strndup stores the text intact or refuses and changes nothing; nothing outside the allocated bytes changes; reads of the source stay inside its n bytes; heap sizes up to 100000 symbolic. scpiheap_get_parts / scpiheap_free are contracts as well (for any ring content that contains a NUL: no access outside the ring, exactly the text's bytes become NUL and are accounted, nothing else changes, write-position rule). That count and write position stay inside the ring along real histories: histories of push/pop/clear with an 8-byte heap between canaries (all sequences up to length 3 plus longer drain/refill sequences) decide full reuse, integrity of queued texts and containment (hist.heap.*, labelled bounded).",
       "DESIGN.md C20", "CBMC function contracts with frame and witness-byte integrity clauses")
 na("C16", "floating-point digit exactness of snprintf/modf-based formatting is outside what CBMC contracts decide (bit-precise product of 16+ IEEE-754 steps; libc is external); buffer safety of those functions is under C15, result-buffer sizing under C07")
 LEVEL_OVERRIDE = {"C03": "model_checking", "C08": "model_checking", "C15": "model_checking", "C18": "model_checking", "C19": "model_checking"}
